@@ -222,3 +222,25 @@ Proof.
   intros Fx [IS [D1 D2 D3]] Hlay H. destruct (delete_column_core g name g' Fx IS H) as [A [B [C D]]].
   constructor; [exact A|constructor; auto].
 Qed.
+
+(** closed form of a successful delete_column: only the connection sets / dictionary / list, the
+    neighbour sets, the nodes' column sets and the column dictionary / list change *)
+Lemma delete_column_closed g name g' : fx_nbr (fx g) = false -> InvS g -> delete_column g name = Ok g' ->
+  exists C D L mb mn cd cl_, g' = set_clist (set_cdict (set_ncol (set_cnbr (set_klist (set_kdict (set_ccon g C) D) L) mb) mn) cd) cl_ /\
+    (forall k, In k L -> In k (klist g)) /\ (forall c, In c cl_ -> In c (clist g)).
+Proof.
+  intros Fx IS H. unfold delete_column in H. destruct (cget g name) as [c|] eqn:E; [|discriminate].
+  destruct (delete_conns g (filter (col_in_conn g c) (klist g))) as [g1|] eqn:E1; cbn [bind] in H; [|discriminate].
+  assert (X1 : forall k, In k (filter (col_in_conn g c) (klist g)) -> In k (klist g)) by (intros k Hk; apply filter_In in Hk; apply Hk).
+  assert (X2 : NoDup (filter (col_in_conn g c) (klist g))) by (apply NoDup_filter; apply (dl_nodup _ _ _ (i_s1k g IS))).
+  destruct (delete_conns_spec _ g g1 Fx IS X1 X2 E1) as [I1 [[C [D [L Eg1]]] K1]]. clear X1 X2.
+  destruct (nbrs_forget g1 (cnb g1 c) c) as [g2|] eqn:E2; cbn [bind] in H; [|discriminate].
+  destruct (nbrs_forget_closed _ _ _ _ E2) as [mb [Rb Eg2]].
+  destruct (nodes_forget g2 (cns g2 c) c) as [g3|] eqn:E3; cbn [bind] in H; [|discriminate].
+  destruct (nodes_forget_closed _ _ _ _ E3) as [mn [Rn Eg3]].
+  revert H. gs. destruct (mem c (clist g3)) eqn:M; [|discriminate]. intro H. inversion H; subst g'; clear H.
+  exists C, D, L, mb, mn, (adel str_eqb (cdict g3) name), (lremove (clist g3) c).
+  subst g3 g2. split; [rewrite Eg1; reflexivity|]. split.
+  - intros k Hk. assert (Y : In k (klist g1)) by (rewrite Eg1; exact Hk). apply K1 in Y. apply Y.
+  - intros x Hx. apply lremove_incl in Hx. rewrite Eg1 in Hx. exact Hx.
+Qed.
